@@ -3,7 +3,8 @@ C11.index, C13.view-offsets)."""
 import re
 
 from ..facts import CheckError
-from ..sym import Sym, atoms, fmt
+from ..sym import Sym, atoms, fmt, short
+from ..ir import op_local
 from .ranges import Ctx, FLIP, NEG, GETTER_RANGES, strip_widen
 from .validators import closure_return, norm, subst
 
@@ -556,3 +557,58 @@ def unchecked_sites(rep, prog, rule):
                 rep.unk(rule, key, c.at, "unchecked access %s[%s] is not covered by any rule" % (
                     fmt(recv)[:40], fmt(idx)[:80]))
     rep.floor(rule, "unchecked accesses outside the kernels", n, 6)
+
+
+def scratch_grow(rep, prog, rule):
+    """C03/C09: a scratch Vec that is sliced up to `n` elements after `if <test> { v.resize(n, _) }`
+    has n elements only if the test is on the *length*; the capacity of a Vec that grew by
+    amortised doubling exceeds its length."""
+    rep.rule(rule, "a conditional Vec::resize(v, n, _) that a later slice of v relies on is guarded by "
+             "len(v) < n for the same n: a guard on capacity(v) (or any other quantity that can be "
+             ">= n while len(v) < n) leaves the vector shorter than the slice taken from it on a reused "
+             "Resizer; the call is a violation, an unrecognised guard is undecided")
+    n = 0
+    for f in sorted(prog.fns.values(), key=lambda x: x.id):
+        calls = [c for c in f.calls() if (c.method or short(c.name)) == "resize"
+                 and "vec::Vec" in (c.name + " " + (c.fn.local_ty(op_local(c.args[0])) or "") if c.args else "")]
+        if not calls:
+            continue
+        sym = Sym(f)
+        for c in calls:
+            if len(c.args) < 2:
+                continue
+            v = fmt(sym.operand(c.args[0], (c.bb, "term")))
+            want = fmt(sym.operand(c.args[1], (c.bb, "term")))
+            v = re.sub(r"^&mut |^&|^\(|\)$", "", v)
+            facts = [(cond, val) for (cond, val) in sym.facts_at(c.bb)
+                     if re.search(r"\b%s\b" % re.escape(v.split(".")[-1]), fmt(cond))]
+            key = "%s|resize(%s, %s)" % (f.name, v[:30], want[:40])
+            if not facts:
+                continue            # unconditional growth
+            n += 1
+            rep.touch(f)
+            verdict = None
+            for cond, val in facts:
+                s = fmt(cond)
+                if "capacity(" in s or "is_empty(" in s:
+                    verdict = ("bad", s)
+                    break
+                if cond[0] == "bin" and cond[1] in ("Lt", "Gt", "Le", "Ge") and "len(" in s and want in s:
+                    lhs, rhs = fmt(cond[2]), fmt(cond[3])
+                    lt = (cond[1] == "Lt" and "len(" in lhs and want in rhs and val is True) or \
+                         (cond[1] == "Gt" and "len(" in rhs and want in lhs and val is True) or \
+                         (cond[1] == "Ge" and "len(" in lhs and want in rhs and val is False) or \
+                         (cond[1] == "Le" and "len(" in rhs and want in lhs and val is False)
+                    if lt:
+                        verdict = ("ok", s)
+            if verdict is None:
+                rep.unk(rule, key, c.at, "growth guarded by %s" % "; ".join(fmt(c_)[:60] for c_, _ in facts))
+            elif verdict[0] == "bad":
+                rep.bad(rule, key + "|capacity", c.at,
+                        "%s grows %s only when %s: that does not imply len >= %s afterwards (a Vec that "
+                        "grew by doubling has a capacity above its length; a non-empty Vec can be "
+                        "shorter), so the slice taken afterwards is shorter than requested (panic on a "
+                        "reused Resizer)" % (f.name, v, verdict[1][:80], want))
+            else:
+                rep.ok(rule, key, c.at, "grown when %s" % verdict[1][:80])
+    rep.floor(rule, "conditional scratch-buffer growth sites", n, 1)
